@@ -13,8 +13,12 @@ Ltac Zify.zify_post_hook ::= Z.to_euclidean_division_equations.
 Definition tsns (l : list sc) : list Z := map c_tsn l.
 Definition qs (s : tx) : list sc := sentq s ++ outq s.
 
+Lemma pair_eta_tx {B} (p : tx * B) : p = (fst p, snd p). Proof. now destruct p. Qed.
+Lemma pair_eta_run {B} (p : tx * B) : p = (fst p, snd p). Proof. now destruct p. Qed.
+
 Lemma tsns_app a b : tsns (a ++ b) = tsns a ++ tsns b. Proof. apply map_app. Qed.
 Lemma tsns_rev a : tsns (rev a) = rev (tsns a). Proof. apply map_rev. Qed.
+Lemma tsns_length a : length (tsns a) = length a. Proof. apply map_length. Qed.
 
 (* ---------------------------------------------------------------- flag-only functions keep the TSN sequence *)
 Lemma abandon_chunk_tsn fl c sib : c_tsn (snd (abandon_chunk fl c sib)) = c_tsn c.
@@ -153,4 +157,430 @@ Proof.
   - rewrite !tsns_app, Hr. reflexivity.
   - pose proof (new_loop_tsns (outq s) fl cw) as Hn. destruct (new_loop (outq s) fl cw) as [[[mv rest] fl2] o2].
     cbn [fst sentq outq]. rewrite !tsns_app, Hr, <- app_assoc, Hn. reflexivity.
+Qed.
+
+(* ---------------------------------------------------------------- the TSN-order invariant *)
+Section Live.
+Variable base N : Z.
+Hypothesis Hbase : r32 base.
+Hypothesis HN : 0 <= N < 2147483648.
+
+Notation offb := (off base).
+Notation inwb := (inw base N).
+
+(* l is the run of consecutive TSNs after offset a *)
+Fixpoint seqfrom (a : Z) (l : list Z) : Prop :=
+  match l with [] => True | t :: l' => r32 t /\ offb t = a + 1 /\ seqfrom (a + 1) l' end.
+
+Lemma seqfrom_app l1 : forall a l2, seqfrom a (l1 ++ l2) <-> seqfrom a l1 /\ seqfrom (a + Z.of_nat (length l1)) l2.
+Proof.
+  induction l1 as [|t l1 IH]; intros a l2; cbn [app seqfrom length].
+  - replace (a + Z.of_nat 0) with a by lia. tauto.
+  - rewrite IH. replace (a + 1 + Z.of_nat (length l1)) with (a + Z.of_nat (S (length l1))) by lia. tauto.
+Qed.
+
+Lemma seqfrom_in a l t : seqfrom a l -> In t l -> r32 t /\ a < offb t <= a + Z.of_nat (length l).
+Proof.
+  revert a. induction l as [|x l IH]; intros a H Hin; [destruct Hin|].
+  cbn [seqfrom length] in *. destruct H as (Hr & Ho & Hs). destruct Hin as [<-|Hin]; [split; [exact Hr|lia]|].
+  destruct (IH _ Hs Hin) as [H1 H2]. split; [exact H1|lia].
+Qed.
+
+Lemma seqfrom_last a l d : seqfrom a l -> l <> [] -> offb (List.last l d) = a + Z.of_nat (length l).
+Proof.
+  revert a. induction l as [|x l IH]; intros a H Hne; [congruence|].
+  cbn [seqfrom] in H. destruct H as (Hr & Ho & Hs). destruct l as [|y l'].
+  - cbn. lia.
+  - change (List.last (x :: y :: l') d) with (List.last (y :: l') d). rewrite (IH _ Hs) by discriminate. cbn [length]. lia.
+Qed.
+
+Definition floor (s : tx) : Z := if uint32_gt (adv_ack s) (last_sacked s) then adv_ack s else last_sacked s.
+
+Record ord (s : tx) : Prop := mkOrd {
+  o_ls : inwb (last_sacked s);
+  o_av : inwb (adv_ack s);
+  o_seq : seqfrom (offb (floor s)) (tsns (qs s));
+  o_top : offb (floor s) + Z.of_nat (length (qs s)) <= N }.
+
+Lemma floor_off s : inwb (last_sacked s) -> inwb (adv_ack s) ->
+  inwb (floor s) /\ offb (floor s) = Z.max (offb (last_sacked s)) (offb (adv_ack s)).
+Proof.
+  intros Hl Ha. unfold floor. destruct (uint32_gt (adv_ack s) (last_sacked s)) eqn:G.
+  - apply (gt_off base N Hbase HN _ _ Ha Hl) in G. split; [exact Ha|lia].
+  - split; [exact Hl|]. destruct (Z_lt_le_dec (offb (last_sacked s)) (offb (adv_ack s))) as [H|H]; [|lia].
+    apply (gt_off base N Hbase HN _ _ Ha Hl) in H. congruence.
+Qed.
+
+Definition top (s : tx) : Z := offb (floor s) + Z.of_nat (length (qs s)).
+
+(* a TSN list with the same TSNs is ordered the same way *)
+Lemma ord_same s s' : last_sacked s' = last_sacked s -> adv_ack s' = adv_ack s -> tsns (qs s') = tsns (qs s) ->
+  ord s -> ord s' /\ top s' = top s.
+Proof.
+  intros El Ea Et [A B C D].
+  assert (Ef : floor s' = floor s) by (unfold floor; now rewrite El, Ea).
+  assert (Elen : length (qs s') = length (qs s)).
+  { apply (f_equal (@length Z)) in Et. unfold tsns in Et. now rewrite !map_length in Et. }
+  split; [|unfold top; now rewrite Ef, Elen].
+  constructor; rewrite ?El, ?Ea, ?Ef, ?Et, ?Elen; assumption.
+Qed.
+
+Lemma ord_transmit s : ord s -> ord (fst (transmit s)) /\ top (fst (transmit s)) = top s.
+Proof.
+  intros O. apply ord_same; [| |apply transmit_tsns|exact O]; unfold transmit;
+    destruct (match fwd_chunk s with Some (cum, strs) => ([OFwd cum strs], true) | None => ([], t3 s) end) as [fo t3a];
+    destruct (retx_loop _ _ _ _ _ _) as [[[[[sq fl] frt] t3r] stop] o1]; destruct stop; try reflexivity;
+    destruct (new_loop _ _ _) as [[[mv rest] fl2] o2]; reflexivity.
+Qed.
+
+(* popping the acknowledged head *)
+Lemma pop_acked_split : forall sq cum fl d db,
+  exists pre, sq = pre ++ fst (fst (fst (pop_acked sq cum fl d db))) /\
+    Forall (fun c => uint32_gte cum (c_tsn c) = true) pre /\
+    match fst (fst (fst (pop_acked sq cum fl d db))) with c :: _ => uint32_gte cum (c_tsn c) = false | [] => True end.
+Proof.
+  induction sq as [|c sq IH]; intros cum fl d db; cbn [pop_acked].
+  - exists []. cbn. auto.
+  - destruct (uint32_gte cum (c_tsn c)) eqn:G.
+    + destruct (c_acked c).
+      * destruct (IH cum fl (d + 1) db) as (pre & E & F & H). exists (c :: pre). cbn [app]. split; [now f_equal|]. split; [now constructor|exact H].
+      * destruct (IH cum (dec fl c) (d + 1) (db + c_book c)) as (pre & E & F & H). exists (c :: pre). cbn [app].
+        split; [now f_equal|]. split; [now constructor|exact H].
+    + exists []. cbn [app fst]. split; [reflexivity|]. split; [constructor|exact G].
+Qed.
+
+Lemma exists_last_in {A} (l : list A) d : l <> [] -> In (List.last l d) l.
+Proof. induction l as [|a l IH]; [congruence|]. intros _. destruct l as [|b l]; [now left|]. right. apply IH. discriminate. Qed.
+
+Lemma last_cons_default {A} : forall (l : list A) x d, List.last (x :: l) d = List.last l x.
+Proof. induction l as [|y l IH]; intros x d; [reflexivity|]. change (List.last (x :: y :: l) d) with (List.last (y :: l) d). rewrite !IH. reflexivity. Qed.
+
+Lemma pop_abandoned_split : forall sq adv strs,
+  exists pre, sq = pre ++ fst (fst (pop_abandoned sq adv strs)) /\
+    snd (fst (pop_abandoned sq adv strs)) = List.last (tsns pre) adv.
+Proof.
+  induction sq as [|c sq IH]; intros adv strs; cbn [pop_abandoned].
+  - exists []. cbn. auto.
+  - destruct (c_abandoned c).
+    + set (strs' := Some _). destruct (IH (c_tsn c) strs') as (pre & E & H). exists (c :: pre). cbn [app]. split; [now f_equal|].
+      rewrite H. cbn [tsns map]. symmetry. apply last_cons_default.
+    + exists []. cbn. auto.
+Qed.
+
+Lemma seqfrom_inw a l : seqfrom a l -> a + Z.of_nat (length l) <= N -> 0 <= a -> Forall inwb l.
+Proof.
+  intros H Ht Ha. apply Forall_forall. intros t Hin. destruct (seqfrom_in a l t H Hin) as [Hr Ho].
+  split; [exact Hr|lia].
+Qed.
+
+Lemma off_nonneg t : 0 <= offb t. Proof. unfold off, M32. lia. Qed.
+
+Lemma ord_update_adv s : ord s ->
+  ord (update_adv s) /\ top (update_adv s) = top s /\ offb (floor s) <= offb (floor (update_adv s)).
+Proof.
+  intros [Hl Ha Hs Ht]. destruct (floor_off s Hl Ha) as [Hf Ef]. unfold update_adv.
+  set (p0 := if uint32_gte (last_sacked s) (adv_ack s) then (last_sacked s, None) else (adv_ack s, fwd_streams s)).
+  assert (H0 : inwb (fst p0) /\ offb (fst p0) = offb (floor s)).
+  { unfold p0. destruct (uint32_gte (last_sacked s) (adv_ack s)) eqn:G; cbn [fst].
+    - apply (gte_off base N Hbase HN _ _ Hl Ha) in G. split; [exact Hl|lia].
+    - split; [exact Ha|]. destruct (Z_le_gt_dec (offb (adv_ack s)) (offb (last_sacked s))) as [H|H]; [|lia].
+      apply (gte_off base N Hbase HN _ _ Hl Ha) in H. congruence. }
+  destruct p0 as [adv0 strs0]. cbn [fst] in H0. destruct H0 as [Hi0 Eo0].
+  destruct (pop_abandoned_split (sentq s) adv0 strs0) as (pre & Esq & Eadv).
+  destruct (pop_abandoned (sentq s) adv0 strs0) as [[sq adv] strs]. cbn [fst snd] in Esq, Eadv.
+  unfold qs in Hs, Ht. rewrite Esq, <- app_assoc, tsns_app in Hs. rewrite Esq, <- app_assoc, app_length in Ht.
+  apply seqfrom_app in Hs as [Hs1 Hs2]. rewrite tsns_length in Hs2.
+  assert (Hadv : inwb adv /\ offb adv = offb (floor s) + Z.of_nat (length pre)).
+  { rewrite Eadv. destruct pre as [|c pre'].
+    - cbn. split; [exact Hi0|lia].
+    - assert (Hne : tsns (c :: pre') <> []) by discriminate.
+      pose proof (seqfrom_last _ _ adv0 Hs1 Hne) as El. rewrite tsns_length in El.
+      destruct (seqfrom_in _ _ _ Hs1 (@exists_last_in _ _ adv0 Hne)) as [Hr _].
+      split; [split; [exact Hr|]|exact El]. rewrite El. cbn [length] in *. lia. }
+  destruct Hadv as [Hia Eoa].
+  set (s' := mkTx _ _ _ _ _ _ _ _ _ _ _ _ _ _).
+  assert (Hf' : offb (floor s') = offb (floor s) + Z.of_nat (length pre)).
+  { destruct (floor_off s' Hl Hia) as [_ E]. rewrite E. unfold s'. cbn [last_sacked adv_ack]. lia. }
+  split; [|split].
+  - constructor; cbn [last_sacked adv_ack]; [exact Hl|exact Hia| |].
+    + rewrite Hf'. exact Hs2.
+    + rewrite Hf'. unfold qs. cbn [sentq outq s']. lia.
+  - unfold top. rewrite Hf'. unfold qs. cbn [sentq outq s']. rewrite Esq, <- app_assoc, !app_length. lia.
+  - rewrite Hf'. lia.
+Qed.
+
+Lemma sack_window ls hs cum : inwb ls -> inwb hs -> offb ls <= offb hs -> r32 cum ->
+  uint32_gt ls cum = false -> uint32_gte hs cum = true -> inwb cum /\ offb ls <= offb cum <= offb hs.
+Proof.
+  unfold inw, r32, off, M32, uint32_gte, uint32_gt. intros [Hl Hl'] [Hh Hh'] Hle Hc G1 G2. lia.
+Qed.
+
+Lemma rev_last_tsn (l : list sc) c r d : rev l = c :: r -> List.last (tsns l) d = c_tsn c /\ l <> [].
+Proof.
+  intros E. assert (El : l = rev r ++ [c]) by (rewrite <- (rev_involutive l), E; reflexivity).
+  rewrite El, tsns_app. cbn [tsns map]. rewrite last_last. split; [reflexivity|]. destruct (rev r); discriminate.
+Qed.
+
+Lemma hs_off s : ord s ->
+  inwb (highest_assigned s) /\ offb (highest_assigned s) = offb (floor s) + Z.of_nat (length (sentq s)).
+Proof.
+  intros [Hl Ha Hs Ht]. destruct (floor_off s Hl Ha) as [Hf Ef]. unfold highest_assigned.
+  destruct (rev (sentq s)) as [|c r] eqn:Er.
+  - assert (sentq s = []) by (rewrite <- (rev_involutive (sentq s)), Er; reflexivity). rewrite H. cbn [length].
+    fold (floor s). split; [exact Hf|lia].
+  - destruct (rev_last_tsn _ _ _ 0 Er) as [El Hne]. unfold qs in Hs, Ht. rewrite tsns_app in Hs. apply seqfrom_app in Hs as [Hs1 _].
+    assert (Hne' : tsns (sentq s) <> []) by (destruct (sentq s); [congruence|discriminate]).
+    pose proof (seqfrom_last _ _ 0 Hs1 Hne') as E1. rewrite El, tsns_length in E1.
+    destruct (seqfrom_in _ _ _ Hs1 (exists_last_in _ 0 Hne')) as [Hr _]. rewrite El in Hr.
+    rewrite app_length in Ht. split; [split; [exact Hr|lia]|exact E1].
+Qed.
+
+Lemma gaps_tsns s sq1 fl1 db1 cum gaps now :
+  let g := match gaps with
+           | [] => (sq1, outq s, fl1, db1, false)
+           | _ => let last_pos := match sq1 with [] => 0 | _ => tsn_off cum (last_tsn sq1 0) end in
+                  let hs := highest_seen cum last_pos gaps cum in
+                  let '(sq2, fl2, db2, htna) := gap_ack sq1 cum last_pos hs gaps fl1 db1 cum in
+                  let '(sq3, oq3, fl3, loss) := strike (length sq2) [] sq2 (outq s) cum last_pos htna gaps fl2 false now in
+                  (sq3, oq3, fl3, db2, loss)
+           end in
+  let '(sq3, oq3, _, _, _) := g in tsns sq3 ++ tsns oq3 = tsns sq1 ++ tsns (outq s).
+Proof.
+  cbv zeta. destruct gaps as [|g0 gaps']; [reflexivity|].
+  set (last_pos := match sq1 with [] => 0 | _ => tsn_off cum (last_tsn sq1 0) end).
+  set (hs := highest_seen cum last_pos (g0 :: gaps') cum).
+  pose proof (gap_ack_tsns sq1 cum last_pos hs (g0 :: gaps') fl1 db1 cum) as Hg.
+  destruct (gap_ack sq1 cum last_pos hs (g0 :: gaps') fl1 db1 cum) as [[[sq2 fl2] db2] htna]. cbn [fst] in Hg.
+  pose proof (strike_tsns (length sq2) [] sq2 (outq s) cum last_pos htna (g0 :: gaps') fl2 false now) as Hk.
+  destruct (strike (length sq2) [] sq2 (outq s) cum last_pos htna (g0 :: gaps') fl2 false now) as [[[sq3 oq3] fl3] loss].
+  cbn [rev app] in Hk. rewrite Hk, Hg. reflexivity.
+Qed.
+
+Theorem ord_receive_sack s cum gaps now : ord s -> r32 cum ->
+  let s' := fst (receive_sack s cum gaps now) in
+  ord s' /\ top s' = top s /\ (sack_ignored s cum = false -> offb cum <= offb (floor s')).
+Proof.
+  intros O Hc. cbv zeta. unfold receive_sack. destruct (sack_ignored s cum) eqn:Ei.
+  { cbn [fst]. split; [exact O|]. split; [reflexivity|discriminate]. }
+  destruct (hs_off s O) as [Hh Eh]. pose proof O as [Hl Ha Hs Ht]. destruct (floor_off s Hl Ha) as [Hf Ef].
+  unfold sack_ignored in Ei. apply orb_false_iff in Ei as [G1 G2]. apply negb_false_iff in G2.
+  destruct (sack_window _ _ _ Hl Hh ltac:(lia) Hc G1 G2) as [Hic Hx].
+  destruct (pop_acked_split (sentq s) cum (flight s) 0 0) as (pre & Esq & Fpre & Hhead).
+  destruct (pop_acked (sentq s) cum (flight s) 0 0) as [[[sq1 fl1] done] db1]. cbn [fst] in Esq, Hhead.
+  pose proof (gaps_tsns s sq1 fl1 db1 cum gaps now) as Hg. cbv zeta in Hg.
+  destruct (match gaps with [] => _ | _ => _ end) as [[[[sq3 oq3] fl3] db3] loss].
+  destruct (match fr_exit s with None => _ | Some e => _ end) as [[[[cw ss] pb] fre] frt].
+  set (t3' := match sq3 with [] => false | _ => _ end).
+  set (s1 := mkTx cw ss fl3 fre frt (fwd_chunk s) (fwd_streams s) cum (adv_ack s) oq3 sq3 pb t3' (pending_tx s)).
+  (* the popped prefix in offsets *)
+  unfold qs in Hs, Ht. rewrite Esq, <- app_assoc, tsns_app in Hs. apply seqfrom_app in Hs as [Hs1 Hs2]. rewrite tsns_length in Hs2.
+  rewrite Esq, <- app_assoc, !app_length in Ht. rewrite Esq, app_length in Eh.
+  set (A := offb (floor s)) in *. set (x := offb cum) in *.
+  assert (Ipre : Forall inwb (tsns pre)) by (apply (seqfrom_inw A); [exact Hs1|rewrite tsns_length; lia|apply off_nonneg]).
+  assert (Hp : pre <> [] -> A + Z.of_nat (length pre) <= x).
+  { intros Hne. assert (Hne' : tsns pre <> []) by (destruct pre; [congruence|discriminate]).
+    pose proof (seqfrom_last _ _ 0 Hs1 Hne') as El. rewrite tsns_length in El. rewrite <- El.
+    pose proof (exists_last_in _ 0 Hne') as Hin. apply in_map_iff in Hin as (c & Ec & Hcin).
+    rewrite Forall_forall in Fpre, Ipre. pose proof (Fpre c Hcin) as G.
+    apply (gte_off base N Hbase HN) in G; [rewrite <- Ec; exact G|exact Hic|]. apply Ipre. apply in_map. exact Hcin. }
+  assert (Hq : sq1 <> [] -> x < A + Z.of_nat (length pre) + 1).
+  { intros Hne. destruct sq1 as [|c sq1']; [congruence|]. rewrite tsns_app in Hs2. cbn [tsns map app seqfrom] in Hs2.
+    destruct Hs2 as (Hr & Ho & _).
+    destruct (Z_lt_le_dec x (offb (c_tsn c))) as [H|H]; [lia|].
+    apply (gte_off base N Hbase HN _ _ Hic) in H; [congruence|]. split; [exact Hr|]. cbn [length] in Ht. lia. }
+  assert (Hsq1 : sq1 = [] -> x <= A + Z.of_nat (length pre)) by (intros ->; cbn [length] in Eh; lia).
+  assert (Hfl1 : offb (floor s1) = A + Z.of_nat (length pre)).
+  { destruct (floor_off s1 Hic Ha) as [_ E]. rewrite E. unfold s1. cbn [last_sacked adv_ack]. fold x.
+    destruct pre as [|p0 pre']; destruct sq1 as [|c0 sq1']; cbn [length] in *;
+      try (specialize (Hp ltac:(discriminate))); try (specialize (Hq ltac:(discriminate))); try (specialize (Hsq1 eq_refl)); lia. }
+  assert (O1 : ord s1 /\ top s1 = top s).
+  { split.
+    - constructor; cbn [last_sacked adv_ack s1]; [exact Hic|exact Ha| |].
+      + rewrite Hfl1. unfold qs. cbn [sentq outq s1]. rewrite tsns_app, Hg, <- tsns_app. exact Hs2.
+      + rewrite Hfl1. unfold qs. cbn [sentq outq s1]. apply (f_equal (@length Z)) in Hg. rewrite !app_length, !tsns_length in Hg.
+        rewrite app_length. lia.
+    - unfold top. rewrite Hfl1. fold A. unfold qs. cbn [sentq outq s1]. rewrite Esq.
+      apply (f_equal (@length Z)) in Hg. rewrite !app_length, !tsns_length in Hg. rewrite !app_length. lia. }
+  destruct O1 as [O1 T1].
+  destruct (ord_update_adv s1 O1) as (O2 & T2 & F2).
+  destruct (ord_transmit (update_adv s1) O2) as [O3 T3].
+  split; [exact O3|]. split; [congruence|]. intros _.
+  assert (Ef3 : floor (fst (transmit (update_adv s1))) = floor (update_adv s1)).
+  { unfold floor, transmit.
+    destruct (match fwd_chunk (update_adv s1) with Some (cum0, strs) => ([OFwd cum0 strs], true) | None => ([], t3 (update_adv s1)) end) as [fo t3a].
+    destruct (retx_loop _ _ _ _ _ _) as [[[[[sq fl] frt0] t3r] stop] o1]. destruct stop; [reflexivity|].
+    destruct (new_loop _ _ _) as [[[mv rest] fl2] o2]. reflexivity. }
+  rewrite Ef3. destruct (floor_off s1 Hic Ha) as [_ E1]. unfold s1 in E1 at 2 3. cbn [last_sacked adv_ack] in E1. fold x in E1. lia.
+Qed.
+
+Lemma ord_t3_expired s now : ord s -> ord (fst (t3_expired s now)) /\ top (fst (t3_expired s now)) = top s.
+Proof.
+  intros O. unfold t3_expired.
+  pose proof (t3_mark_tsns (length (sentq s)) [] (sentq s) (outq s) (flight s) now) as Hm.
+  destruct (t3_mark (length (sentq s)) [] (sentq s) (outq s) (flight s) now) as [[sq oq] fl]. cbn [rev app] in Hm.
+  set (s0 := mkTx (cwnd s) (ssthresh s) fl (fr_exit s) (fr_transmit s) (fwd_chunk s) (fwd_streams s)
+                  (last_sacked s) (adv_ack s) oq sq (pba s) false (pending_tx s)).
+  assert (O0 : ord s0 /\ top s0 = top s).
+  { apply ord_same; auto. unfold qs. cbn [sentq outq s0]. rewrite !tsns_app. exact Hm. }
+  destruct O0 as [O0 T0]. destruct (ord_update_adv s0 O0) as (O1 & T1 & _).
+  cbn [fst]. set (s2 := mkTx _ _ _ _ _ _ _ _ _ _ _ _ _ _).
+  assert (O2 : ord s2 /\ top s2 = top (update_adv s0)) by (apply ord_same; auto).
+  destruct O2 as [O2 T2]. split; [exact O2|congruence].
+Qed.
+
+(* what the application may hand to _send: the next TSNs, inside the window *)
+Definition wf_ord (s : tx) (i : input) : Prop :=
+  match i with
+  | ISendMsg cs => seqfrom (top s) (tsns cs) /\ top s + Z.of_nat (length cs) <= N
+  | ISack cum _ _ => r32 cum
+  | _ => True
+  end.
+
+Theorem step_ord s i : ord s -> wf_ord s i -> ord (fst (step s i)) /\ top s <= top (fst (step s i)).
+Proof.
+  intros O W. destruct i as [cs|cum gaps now|now|]; cbn [step wf_ord] in *.
+  - destruct W as [Wc Wt]. unfold send.
+    set (s0 := with_q s (flight s) (outq s ++ cs) (sentq s)).
+    assert (O0 : ord s0 /\ top s0 = top s + Z.of_nat (length cs)).
+    { pose proof O as [Hl Ha Hs Ht].
+      assert (Ef : floor s0 = floor s) by reflexivity.
+      assert (Eq : qs s0 = qs s ++ cs) by (unfold qs, s0, with_q; cbn [sentq outq]; now rewrite app_assoc).
+      split.
+      - constructor; rewrite ?Ef, ?Eq; auto.
+        + rewrite tsns_app. apply seqfrom_app. split; [exact Hs|]. rewrite tsns_length. exact Wc.
+        + rewrite app_length. unfold top in Wt. lia.
+      - unfold top. rewrite Ef, Eq, app_length. lia. }
+    destruct O0 as [O0 T0]. destruct (ord_transmit s0 O0) as [O1 T1]. split; [exact O1|lia].
+  - destruct (ord_receive_sack s cum gaps now O W) as (O1 & T1 & _). split; [exact O1|lia].
+  - destruct (t3 s); [|cbn [fst]; split; [exact O|lia]]. destruct (ord_t3_expired s now O) as [O1 T1]. split; [exact O1|lia].
+  - destruct (ord_transmit s O) as [O1 T1]. rewrite (pair_eta_tx (transmit s)). cbn [fst].
+    set (s2 := mkTx _ _ _ _ _ _ _ _ _ _ _ _ _ _).
+    assert (O2 : ord s2 /\ top s2 = top (fst (transmit s))) by (apply ord_same; auto).
+    destruct O2 as [O2 T2]. split; [exact O2|lia].
+Qed.
+
+Fixpoint wf_ord_run (s : tx) (is : list input) : Prop :=
+  match is with [] => True | i :: is' => wf_ord s i /\ wf_ord_run (fst (step s i)) is' end.
+
+Theorem run_ord : forall is s, ord s -> wf_ord_run s is -> ord (fst (run s is)).
+Proof.
+  induction is as [|i is IH]; intros s O W; cbn [run]; [exact O|]. destruct W as [W1 W2].
+  destruct (step_ord s i O W1) as [O1 _]. rewrite (pair_eta_tx (step s i)). rewrite (pair_eta_run (run (fst (step s i)) is)). cbn [fst].
+  now apply IH.
+Qed.
+
+Lemma ord_init t rw : inwb (tsn_minus_one t) -> ord (init t rw).
+Proof.
+  intros H. constructor; cbn [init last_sacked adv_ack]; auto.
+  - unfold qs. cbn. exact I.
+  - unfold qs, floor. cbn [init sentq outq adv_ack last_sacked app length]. destruct (uint32_gt _ _); destruct H; lia.
+Qed.
+
+(* ---------------------------------------------------------------- the fault-free continuation drains *)
+(* what a peer that has received everything sent so far answers, and the pending transmit task *)
+Definition ideal_input (s : tx) : option input :=
+  match sentq s, outq s with
+  | _ :: _, _ => Some (ISack (highest_assigned s) [] 0)
+  | [], _ :: _ => Some IRunTransmit
+  | [], [] => None
+  end.
+
+Fixpoint drain (fuel : nat) (s : tx) : list input :=
+  match fuel with
+  | O => []
+  | S f => match ideal_input s with Some i => i :: drain f (fst (step s i)) | None => [] end
+  end.
+
+Definition measure (s : tx) : nat :=
+  (2 * length (qs s) - match sentq s with [] => 0 | _ => 1 end)%nat.
+
+Lemma qs_length_top s : ord s -> Z.of_nat (length (qs s)) = top s - offb (floor s).
+Proof. intros _. unfold top. lia. Qed.
+
+Lemma sack_round s : SctpTxP.inv s -> ord s -> sentq s <> [] ->
+  let s' := fst (step s (ISack (highest_assigned s) [] 0)) in
+  SctpTxP.inv s' /\ ord s' /\ (length (qs s') <= length (outq s))%nat.
+Proof.
+  intros I O Hne. cbv zeta. destruct (hs_off s O) as [Hh Eh]. pose proof O as [Hl Ha Hs Ht]. destruct (floor_off s Hl Ha) as [Hf Ef].
+  assert (Hr : r32 (highest_assigned s)) by (destruct Hh; assumption).
+  assert (Hni : sack_ignored s (highest_assigned s) = false).
+  { unfold sack_ignored. apply orb_false_iff. split.
+    - destruct (uint32_gt (last_sacked s) (highest_assigned s)) eqn:G; [|reflexivity].
+      apply (gt_off base N Hbase HN _ _ Hl Hh) in G. lia.
+    - apply negb_false_iff. unfold uint32_gte. now rewrite Z.eqb_refl. }
+  split; [apply step_inv; [exact I|exact Logic.I]|].
+  cbn [step]. destruct (ord_receive_sack s (highest_assigned s) [] 0 O Hr) as (O1 & T1 & F1). split; [exact O1|].
+  specialize (F1 Hni). pose proof (qs_length_top _ O1) as L1. pose proof (qs_length_top _ O) as L0.
+  unfold qs in L0 at 1. rewrite app_length in L0. lia.
+Qed.
+
+Lemma kick s : SctpTxP.inv s -> ord s -> sentq s = [] -> outq s <> [] ->
+  let s' := fst (step s IRunTransmit) in
+  SctpTxP.inv s' /\ ord s' /\ sentq s' <> [] /\ length (qs s') = length (qs s).
+Proof.
+  intros I O He Hne. cbv zeta. split; [apply step_inv; [exact I|exact Logic.I]|].
+  destruct (step_ord s IRunTransmit O Logic.I) as [O1 _]. split; [exact O1|].
+  assert (Hlen : length (qs (fst (step s IRunTransmit))) = length (qs s)).
+  { cbn [step]. rewrite (pair_eta_tx (transmit s)). cbn [fst]. unfold qs at 1. cbn [sentq outq].
+    pose proof (transmit_tsns s) as E. apply (f_equal (@length Z)) in E. rewrite !tsns_length in E. exact E. }
+  split; [|exact Hlen].
+  cbn [step]. rewrite (pair_eta_tx (transmit s)). cbn [fst sentq]. unfold transmit. rewrite He.
+  destruct (match fwd_chunk s with Some (cum, strs) => ([OFwd cum strs], true) | None => ([], t3 s) end) as [fo t3a].
+  cbn [retx_loop].
+  pose proof (i_fl s I) as Hfl. rewrite He in Hfl. cbn in Hfl. pose proof (i_cw s I) as Hcw. pose proof MTU_val as Hm.
+  destruct (outq s) as [|c oq]; [congruence|]. cbn [new_loop].
+  set (cw := Z.min _ (cwnd s)).
+  assert (Hlt : (flight s <? cw) = true).
+  { unfold cw. destruct (fr_exit s); lia. }
+  rewrite Hlt. destruct (new_loop oq (flight s + c_book c) cw) as [[[mv rest] fl2] o2]. cbn [fst sentq app]. discriminate.
+Qed.
+
+Theorem drain_ok : forall fuel s, SctpTxP.inv s -> ord s -> (measure s <= fuel)%nat ->
+  let s' := fst (run s (drain fuel s)) in sentq s' = [] /\ outq s' = [].
+Proof.
+  induction fuel as [|f IH]; intros s I O Hm; cbv zeta.
+  - cbn [drain run fst]. unfold measure, qs in Hm. rewrite app_length in Hm.
+    destruct (sentq s) as [|c sq]; destruct (outq s) as [|d oq]; cbn [length] in Hm; try lia. auto.
+  - cbn [drain]. unfold ideal_input. destruct (sentq s) as [|c sq] eqn:Es.
+    + destruct (outq s) as [|d oq] eqn:Eo; [cbn [run fst]; auto|].
+      destruct (kick s I O Es ltac:(rewrite Eo; discriminate)) as (I1 & O1 & N1 & L1). cbv zeta in *.
+      cbn [run]. rewrite (pair_eta_tx (step s IRunTransmit)). rewrite (pair_eta_run (run _ (drain f _))). cbn [fst].
+      apply IH; auto. unfold measure in *. rewrite L1. rewrite Es in Hm.
+      destruct (sentq (fst (step s IRunTransmit))); [congruence|]. unfold qs in Hm |- *. rewrite Es, Eo in *. cbn [app length] in *. lia.
+    + assert (Hne : sentq s <> []) by (rewrite Es; discriminate).
+      destruct (sack_round s I O Hne) as (I1 & O1 & L1). cbv zeta in *.
+      cbn [run]. rewrite (pair_eta_tx (step s _)). rewrite (pair_eta_run (run _ (drain f _))). cbn [fst].
+      apply IH; auto. unfold measure in *. rewrite Es in Hm. unfold qs in Hm. rewrite Es, app_length in Hm. cbn [length] in Hm.
+      destruct (sentq (fst (step s (ISack (highest_assigned s) [] 0)))); lia.
+Qed.
+
+(* the continuation consists of well-formed inputs only *)
+Lemma drain_wf : forall fuel s, Forall wf_input (drain fuel s).
+Proof.
+  induction fuel as [|f IH]; intros s; cbn [drain]; [constructor|].
+  destruct (ideal_input s) as [i|] eqn:E; [|constructor]. constructor; [|apply IH].
+  unfold ideal_input in E. destruct (sentq s); destruct (outq s); try discriminate; injection E as <-; exact Logic.I.
+Qed.
+End Live.
+
+(* From EVERY reachable sender state -- after any history of sends, SACKs (any cumulative TSN, any
+   gap blocks), T3 expiries and transmit runs -- the continuation in which the peer acknowledges
+   what has been sent and the pending transmit task runs reaches quiescence in at most
+   2 * (outstanding + queued) inputs: nothing outstanding, nothing queued, flight size 0. *)
+Theorem never_wedged base N t rw ins :
+  r32 base -> 0 <= N < 2147483648 -> inw base N (tsn_minus_one t) ->
+  Forall wf_input ins -> wf_ord_run base N (init t rw) ins ->
+  let s := fst (run (init t rw) ins) in
+  let cont := drain (2 * length (sentq s ++ outq s)) s in
+  let s' := fst (run s cont) in
+  Forall wf_input cont /\ sentq s' = [] /\ outq s' = [] /\ flight s' = 0.
+Proof.
+  intros Hb HN Ht Hw Ho s cont s'.
+  pose proof (run_inv ins (init t rw) (inv_init t rw) Hw) as I. fold s in I.
+  pose proof (run_ord base N Hb HN ins (init t rw) (ord_init base N t rw Ht) Ho) as O. fold s in O.
+  split; [apply drain_wf|].
+  assert (Hm : (measure s <= 2 * length (sentq s ++ outq s))%nat) by (unfold measure, qs; lia).
+  destruct (drain_ok base N Hb HN _ s I O Hm) as [E1 E2]. fold cont in E1, E2. fold s' in E1, E2.
+  split; [exact E1|]. split; [exact E2|].
+  pose proof (run_inv cont s I (drain_wf _ s)) as I'. fold s' in I'. pose proof (i_fl s' I') as F. rewrite E1 in F. cbn in F. lia.
 Qed.
